@@ -144,12 +144,15 @@ def activateInitial (h : Nested) (m : Machine) (t : Trigger) : EM Unit :=
 
 /-- `_trigger`; `none` = the sentinel returned for `__initial__`. The reserved name is the
 activation trigger only while the model holds no state (after the repair of D23); afterwards it
-is an ordinary, undeclared event. -/
+is an ordinary, undeclared event — except for the engine's own activation trigger (queued by `start()`
+while the model was empty): when a state has been stored in the meantime it is resumed, nothing runs
+(after the repair of D36). -/
 def trigger (h : Nested) (m : Machine) (t : Trigger) : EM (Option Res) := do
   let cfg ← EM.get
   if t.event == initialEv && cfg.cur.isNone then do
     activateInitial h m t
     pure none
+  else if t.event == initialEv && t.internal then pure none
   else
     match cfg.cur.bind (lookupState m) with
     | none => EM.throw .invalidState
@@ -233,10 +236,15 @@ def send (m : Machine) (o : Opts) (fuel : Nat) (e : EventId) : EM Res := do
   enqueue e
   process m o fuel
 
+/-- the activation trigger of `BaseEngine.start` -/
+def enqueueActivation : EM Unit :=
+  EM.modify fun c => { c with queue := c.queue ++ [{ tid := c.nextTid, event := initialEv, internal := true }],
+                              nextTid := c.nextTid + 1 }
+
 /-- `BaseEngine.start`: queue `__initial__` iff the model holds no state -/
 def start : EM Unit := do
   let cfg ← EM.get
-  if cfg.cur.isNone then enqueue initialEv else pure ()
+  if cfg.cur.isNone then enqueueActivation else pure ()
 
 /-- `StateMachine.__init__` from the engine's point of view -/
 def construct (m : Machine) (o : Opts) (fuel : Nat) : EM Unit :=
